@@ -851,7 +851,12 @@ def plotting_cases(q, fresh, only=None):
     `only` = one stored input (replay)."""
     from qexpy.plotting.plotobjects import FunctionOnPlot
     fails, n = [], 0
-    cases = [{"plot": attr, "raises": rz, "size_before": before}
+    cases = [{"plot": attr, "raises": rz, "size_before": before,
+              "history": ["q.set_monte_carlo_sample_size({})".format(before),
+                          "q.set_print_style('latex')",
+                          "FunctionOnPlot(f, xrange=(0.0, 1.0)).{}   # f(x) {}".format(
+                              attr, "raises " + rz if rz else "returns 2*x"),
+                          "read q.get_settings()"]}
              for attr in ("yvalues", "yerr") for rz in [False] + sorted(RAISES)
              for before in (777, 123456)]
     if only is not None:
@@ -1030,6 +1035,24 @@ def search(ctx, broken):
     return out
 
 
+def refresh_model():
+    """regenerate the settings tables from the CURRENT tree and rebuild the model driver (the replay
+    path of vf/check.py does not translate: without this a replay would compare with the driver of
+    whatever tree was checked last).  Returns the translator's reasons for a broken tie, or None when
+    the driver could not be rebuilt."""
+    try:
+        import translate
+        broken = []
+        for sec in SECTIONS:
+            fname, text, br = translate.SECTIONS[sec]()
+            translate.write_if_changed(os.path.join(translate.GEN, fname), text)
+            broken += br
+        rc, _, _ = C.lake_build(["driver"])
+        return broken if rc == 0 else None
+    except Exception:  # noqa: BLE001
+        return None
+
+
 def replay(ctx, rp):
     import qexpy as q
     f = rp.get("failure", {})
@@ -1040,6 +1063,18 @@ def replay(ctx, rp):
     if not isinstance(p, list):
         return {"fails": False, "note": "replay file carries no concrete input", "payload": rp}
     fresh = fresh_process_state()
+    tie = refresh_model()
     fs, traces = compare(q, [p], ctx, fresh=fresh)
     ff, _ = fresh_checks(q, ctx)
-    return {"fails": bool(fs or ff), "trace": traces[0][1], "failures": fs + ff}
+    note = None
+    if tie is None or tie:
+        # no proved model for this tree: only the property's own oracles (independent of the
+        # generated tables) can say that the stored input fails
+        note = ("model driver not rebuilt" if tie is None else "translator tie broken: " + "; ".join(tie)) + \
+            " - judged by the direct property oracles only"
+        fs = [x for x in fs if x.get("oracle") == "independent"]
+        ff = []
+    out = {"fails": bool(fs or ff), "trace": traces[0][1], "failures": fs + ff}
+    if note:
+        out["note"] = note
+    return out
